@@ -273,6 +273,15 @@ def gen_ffi(repo):
     body += f"Definition gen_ffi_opt_load_zero_is_none : bool := {'true' if zero_none else 'false'}.\n"
     body += f"Definition gen_ffi_opt_load_miss_is_error : bool := {'true' if miss_err else 'false'}.\n"
     body += f"Definition gen_ffi_status_list_type_error_propagated : bool := {'true' if type_err else 'false'}.\n"
+    rev = read(repo, "src/ffi/revocation.rs")
+    crd = read(repo, "src/ffi/credential.rs")
+    try_sites = len(re.findall(r"max_cred_num\s*\.try_into\(\)", rev)) + len(re.findall(r"rev_reg_index\s*\.try_into\(\)", rev)) + len(re.findall(r"\.reg_idx\s*\.try_into\(\)", crd))
+    for name in ("max_cred_num", "rev_reg_index", "reg_idx"):
+        if re.search(name + r"\s+as\s+u(32|64|size)", rev + crd):
+            try_sites = -1
+    ts_sites = len(re.findall(r"let timestamp = if timestamp <= 0 \{\s*None\s*\} else \{\s*Some\(timestamp as u64\)", rev))
+    body += f"Definition gen_ffi_u32_try_into_sites : Z := {try_sites}%Z.\n"
+    body += f"Definition gen_ffi_timestamp_none_sites : Z := {ts_sites}%Z.\n"
     body += f"Definition gen_ffi_length_checks : Z := {lens}%Z.\n"
     body += "Definition gen_ffi_error_codes : list (string * Z) := [" + "; ".join(f"({coq_str(n)}, {v}%Z)" for n, v in codes) + "].\n"
     return body
